@@ -123,7 +123,7 @@ func Run(prefix []int, opt Options, body func()) *Result {
 		panic("sched: nested Run")
 	}
 	if opt.StepBudget == 0 {
-		opt.StepBudget = 200000
+		opt.StepBudget = 5000000
 	}
 	e := &exec{
 		prefix: prefix,
